@@ -1,5 +1,6 @@
 import TLVerif.Udp.SysLemmas
 import TLVerif.Udp.ReleaseLemmas
+import TLVerif.Udp.ResendLemmas
 /-!
 # C36 (modelled part) — exactly-once, in-order, intact delivery of the sliding-window protocol
 
@@ -9,9 +10,10 @@ outgoing.go (`AckChunk`, `AckPrefix`, `ackFrontChunk`, `unrefMessage` reference 
 loses, duplicates and reorders datagrams.  The model is tied to the Go code differentially
 (`udp.rcv` / `udp.snd` case lines drive one real `IncomingConnection` / `OutgoingConnection`).
 
-Not modelled: timers and the choice of what to (re)send (`GetChunksToSend`, `OnResendTimeout` — the
-model lets the sender send *any* unacknowledged chunk of its window at any time, which covers every
-such policy), memory limits (a chunk refused for lack of memory behaves like a lost datagram),
+Not modelled: timers; in the composed system `Sys` the sender may send *any* unacknowledged chunk of
+its window at any time (which covers every policy of `GetChunksToSend`); `GetChunksToSend` itself, with
+the send cursors, `OnResendTimeout` and the peer's resend request, is modelled separately in
+`Udp/Resend.lean` (`SendX`) and tied through `udp.snd` lines, memory limits (a chunk refused for lack of memory behaves like a lost datagram),
 datagram packing, encryption, handshake, restarts, 32-bit wrap-around of sequence numbers.
 -/
 namespace TLVerif.Props.C36Window
@@ -98,6 +100,16 @@ theorem send_release_exactly_once (ops : List SOp) :
     ∀ m, m ∈ (sendRun ops).released ↔ (m < (sendRun ops).nextMsg ∧ cnt (sendRun ops).window m = 0) :=
   ⟨(sendRun_relInv ops).nodup, (sendRun_relInv ops).rel⟩
 
+/-- **A datagram carries consecutive sequence numbers.** A datagram only transmits its first sequence
+number and a count, so the chunks `GetChunksToSend` (model: `SendX.getChunks`, Udp/Resend.lean — resend
+ranges requested by the peer first, then timed-out / fresh chunks) collects must be numbered
+`f, f+1, …`.  This holds for every sender state: any window, any acknowledged holes, any send cursors,
+any (stale, overlapping, partly acknowledged, out-of-window) resend request. -/
+theorem getChunks_contiguous (cfg : SendCfg) (x : SendX) :
+    ∃ f, (x.getChunks cfg).2.seqs = List.range' f (x.getChunks cfg).2.seqs.length := by
+  obtain ⟨f, n, h⟩ := getChunks_contig cfg x
+  exact ⟨f, by rw [h]; simp⟩
+
 /-! ## Sender + lossy, duplicating, reordering network + receiver: every schedule -/
 
 /-- **Exactly once, in order, intact — at every moment of every schedule.** -/
@@ -149,5 +161,16 @@ example : (Sys.run exActs).snd.window = [] := by decide
 example : (Sys.run exActs).snd.released = [0, 1] := by decide
 example : (Sys.run (exActs.take 12)).rcv.delivered = [] ∧ (Sys.run (exActs.take 12)).snd.window.length = 3 := by decide
 example : (recvRun (chunksOf [[[1], [2]], [[3]]]) [2, 1, 1, 0, 7]).delivered = [[1, 2], [3]] := by decide
+
+/-- the stale resend request of the seeded scenario: five one-chunk messages sent, 1 and 4 acknowledged,
+then the peer's old request for 0..3 is answered by two datagrams, [0] and [2,3] — never [0,2,3] -/
+def exResend : SendX :=
+  (((((({} : SendX).push [4]).push [4]).push [4]).push [4]).push [4])
+
+def exResend2 : SendX :=
+  ((((exResend.getChunks {}).1.getChunks {}).1.ackChunk 1).ackChunk 4).setResend [(0, 3)]
+
+example : (exResend2.getChunks {}).2.seqs = [0] := by decide
+example : ((exResend2.getChunks {}).1.getChunks {}).2.seqs = [2, 3] := by decide
 
 end TLVerif.Props.C36Window
